@@ -269,8 +269,16 @@ pub fn momentum_mirror(base: u64, count: u64) -> (Vec<String>, String) {
         let mirror: Vec<i64> = path.iter().map(|p| 2 * level - p).collect();
         let seed = g.next();
         let market = g.chance(1, 3);
-        let a = momentum_flow(&path, seed, n, &params, market, crossed);
-        let b = momentum_flow(&mirror, seed, n, &params, market, crossed);
+        let run = |p: &Vec<i64>| std::panic::catch_unwind(std::panic::AssertUnwindSafe(|| momentum_flow(p, seed, n, &params, market, crossed)));
+        let (a, b) = match (run(&path), run(&mirror)) {
+            (Ok(a), Ok(b)) => (a, b),
+            _ => {
+                fails.push(format!("the simulation aborted (panic) while a momentum agent updated on an imposed price path; pair {} (seed {}, {} traders, {}{}, tick {}, path {:?})",
+                    i, seed, n, if market { "multi-asset" } else { "single-asset" }, if crossed { ", trading disabled and quotes crossed" } else { "" }, params.tick_size, path));
+                pairs += 1;
+                continue;
+            }
+        };
         pairs += 1;
         if sample.is_empty() { sample = format!("path {:?} n={} demand={} decay={} ratio={} -> flow (buys,sells,vol) {:?}, mirrored {:?}", path, n, params.demand, params.decay, params.order_ratio, a, b); }
         let desc = format!("pair {} (seed {}, {} traders, {}{}, decay {}, scale {}, demand {}, order ratio {}, path {:?})", i, seed, n, if market { "multi-asset" } else { "single-asset" }, if crossed { ", trading disabled and quotes crossed" } else { "" }, params.decay, params.scale, params.demand, params.order_ratio, path);
